@@ -3,7 +3,7 @@
    Only ExtrOcamlBasic is used: nat, N, Z, positive stay the extracted inductives. *)
 From Coq Require Import List NArith ZArith Extraction ExtrOcamlBasic.
 From LMBase Require Import Res ListX IEEE.
-From LMIo Require Import IoBase IoNom IoJaspar IoUniprobe IoPrint IoPrintU IoRoundtripU IoErr IoPoll.
+From LMIo Require Import IoBase IoNom IoJaspar IoUniprobe IoPrint IoPrintU IoRoundtripU IoErr IoPoll IoPrintG.
 
 Definition n_matrix_of := @matrix_of.
 Definition z_of_N := Z.of_N.
@@ -14,6 +14,7 @@ Extraction "io_model.ml"
   jaspar_read jaspar16_read uniprobe_read j_calls uniprobe_calls j_record j16_record
   of_stream jaspar_read_e jaspar16_read_e jaspar_calls_e jaspar16_calls_e uniprobe_read_e uniprobe_calls_e
   jaspar_polls_e jaspar16_polls_e uniprobe_polls_e jaspar_polls_e_unguarded end_final first_nonrec
+  print_jaspar_g print_jaspar16_g print_file_g wf_jaspar_g wf_jaspar16_g src_of_g g_of_style
   j_read_buggy j_new j_next
   Dna Protein
   print_jaspar print_jaspar16 print_uniprobe print_file
